@@ -160,6 +160,12 @@ func structKeys(t types.Type, out map[string]bool) {
 }
 
 func (w *World) writeKeys(fn *ssa.Function) map[string]bool {
+	w.mu.Lock()
+	defer w.mu.Unlock()
+	return w.writeKeysLocked(fn)
+}
+
+func (w *World) writeKeysLocked(fn *ssa.Function) map[string]bool {
 	if ks, ok := w.wkCache[fn]; ok {
 		return ks
 	}
@@ -237,7 +243,7 @@ func (w *World) blockWriteKeys(b *ssa.BasicBlock, out map[string]bool) {
 				out["G:ghost.cbarg"] = true
 			}
 			for _, callee := range w.calleesOf(cc) {
-				for k := range w.writeKeys(callee) {
+				for k := range w.writeKeysLocked(callee) {
 					out[k] = true
 				}
 			}
@@ -542,9 +548,11 @@ func (x *Exec) enterLoop(fc *frameCtx, li *loopInfo, in *State) *State {
 	// 2. havoc
 	ns := in.clone()
 	wk := map[string]bool{}
+	x.W.mu.Lock()
 	for blk := range li.body {
 		x.W.blockWriteKeys(blk, wk)
 	}
+	x.W.mu.Unlock()
 	for _, k := range sortedKeys(wk) {
 		if strings.HasPrefix(k, "?") {
 			oos("loop writes through unknown pointer")
